@@ -22,8 +22,8 @@ SRV_POOL = ["ssh", "ftp", "http"]
 PROC_POOL = ["tomcat", "daclsvc", "cron"]
 
 PROBS = [0.5, 0.25, 0.9, 0.8, 1.0, 1, 0.5, 0.9, 1.0, 0, 0.0, 0.001, 0.999, 0.3333333333333333]
-COSTS = [1, 2, 3, 0.5, 1.25, 10, 1, 1, 0.1, 1000, 1e-06, 33554433, 0.30000000000000004]
-SCAN_COSTS = [0, 1, 2, 0.5, 1, 1, 0.3, 0.1, 1e-06]
+COSTS = [1, 2, 3, 0.5, 1.25, 10, 1, 1, 0.1, 1000, 1e-06, 33554433, 0.30000000000000004, 0.125, 1.375, 0.004]
+SCAN_COSTS = [0, 1, 2, 0.5, 1, 1, 0.3, 0.1, 1e-06, 0.125, 0.004]
 VALUES = [0, 1, -1, -100, 5, 0.5, 50, 0.125, 0.1, 16777217, -0.3]
 SENS_VALUES = [100, 10, 1, 0.5, 1000, 100, 0.1, 123456.75, 5.2, 1.1, 2.7, 20000000, 0.3]
 
@@ -205,6 +205,14 @@ def documents(draw, max_subnets=4, max_size=3, max_hosts=7, extras=True,
     if privescs and _coin(draw, 0.2):
         src_name = draw(st.sampled_from(sorted(privescs)))
         privescs["pe_dup"] = dict(privescs[src_name])
+    # ... and two definitions for the same (service, OS) / (process, OS) that differ in cost, probability or access
+    if _coin(draw, 0.2):
+        src_name = draw(st.sampled_from(sorted(exploits)))
+        exploits["e_alt"] = dict(exploits[src_name], cost=draw(costs), prob=draw(probs),
+                                 access=draw(st.sampled_from(["user", "root"])))
+    if privescs and _coin(draw, 0.15):
+        src_name = draw(st.sampled_from(sorted(privescs)))
+        privescs["pe_alt"] = dict(privescs[src_name], cost=draw(costs), prob=draw(probs))
     hostcfg = {}
     for a in addrs:
         services = [s for s in srvs if _coin(draw, q)]
@@ -377,6 +385,15 @@ def _finish(draw, doc, many=0.1):
                                                           os=draw(st.sampled_from(doc["os"] + ["none"])),
                                                           prob=draw(st.sampled_from([1.0, 0.5, 0.9])), cost=draw(st.sampled_from([1, 2, 0.5])),
                                                           access=draw(st.sampled_from(["root", "root", "user"])))
+    if _coin(draw, 0.15):
+        # rules for traffic inside one subnet: allowed by the format (a subnet is connected to itself) and without
+        # effect (traffic inside a subnet is always allowed); written before or after the required rules
+        n_ = len(doc["subnets"])
+        own = {(s_, s_): [x for x in doc["services"] if _coin(draw, 0.4)][:6]
+               for s_ in range(1, n_ + 1) if _coin(draw, 0.5)}
+        if own:
+            doc["firewall"] = dict(list(own.items()) + list(doc["firewall"].items())) if _coin(draw, 0.5) \
+                else dict(list(doc["firewall"].items()) + list(own.items()))
     if _coin(draw, 0.2):
         doc["_keyspell"] = draw(st.integers(1, 3))
     if _coin(draw, 0.2):
